@@ -36,7 +36,7 @@ class CrashProfile(Profile):
             "every byte prefix of every write effect; payloads > 400 bytes: boundaries + first/last 32 + 64 sampled offsets) "
             "or one corruption of one sidecar (truncation at each byte, emptied, directory, EACCES, EIO), each followed by "
             "recovery checks R1-R5 in a new process; distinct = distinct (write shape, effect kinds of the trace, crash kind, "
-            "byte class 1/2/3+) and (corruption mode, byte class) marks")
+            "byte class first 3 / middle / last 3, write through set or update, other Sids present) and (corruption mode, byte class) marks")
 
     def evaluations(self, stats, runs):
         return stats.get("crash_points", 0) + stats.get("corruptions", 0)
@@ -304,8 +304,13 @@ class CrashProfile(Profile):
                 else:
                     run.fired["crash_after_effect:" + trace[plan["after"]][0] if plan["after"] < len(trace) else "crash_after_effect"] += 1
                     kind = "after:" + (trace[plan["after"]][0] if plan["after"] < len(trace) else "?")
-                run.case_mark("cp", shape, kind, [t[0] for t in trace],
-                              ("k", min(plan.get("bytes", 0), 3)) if "at" in plan else None)
+                if "at" in plan:
+                    nb = trace[plan["at"]][2]
+                    k = plan["bytes"]
+                    bclass = k if k <= 3 else ("n-%d" % (nb - k) if nb - k <= 3 else "mid")
+                else:
+                    bclass = None
+                run.case_mark("cp", shape, step["how"], kind, [t[0] for t in trace], bclass, bool(others), len(searches))
                 run.state_mark("pre", run.world.digest() if False else shape, len(others))
             run.stats["crash_points"] += 1
             seen = run.scratch.setdefault("kinds_seen", set())
